@@ -585,7 +585,7 @@ func (r *runner) doFlagReach(o hx.Op) {
 // yamlCause names the class of string values the YAML writer (goccy) / reader (yaml.v3) pair is
 // known not to preserve that `w` belongs to ("" = none): the cause part of a finding's signature.
 // (The outcome itself is predicted by the Lean model, Model/ConfigYaml.lean, and compared on every op.)
-func yamlCause(w string) string {
+func yamlCause(w string, depth int) string {
 	p := w
 	if !strings.HasPrefix(w, "_") {
 		p = strings.ReplaceAll(w, "_", "")
@@ -595,6 +595,14 @@ func yamlCause(w string) string {
 		return "carriage-return-rewritten"
 	case w == "\n":
 		return "lone-newline-lost"
+	case strings.Contains(w, "\n") && !strings.Contains(w, "\t") && !goccyQuotesStructurally(w):
+		switch v, ok := lfBlock(depth, w); {
+		case !ok:
+			return "multiline-block-file-unparsable-silently-ignored"
+		case v != w:
+			return "multiline-block-reread-differently"
+		}
+		return ""
 	case w == "?" || strings.HasPrefix(w, "? "):
 		return "file-unparsable-silently-ignored"
 	case hardControlRe.MatchString(w):
@@ -609,12 +617,100 @@ func yamlCause(w string) string {
 	return ""
 }
 
+// goccyQuotesStructurally: the part of token.IsNeedQuoted that looks at the shape of the value
+// (special first/last character, '#', '\\', ": ", "- "); such values are written double-quoted.
+func goccyQuotesStructurally(v string) bool {
+	if v == "" || v == "-" {
+		return true
+	}
+	if strings.ContainsRune("*&[{}],!|>%'\"@ `", rune(v[0])) || v[len(v)-1] == ':' || v[len(v)-1] == ' ' {
+		return true
+	}
+	for i := 0; i < len(v); i++ {
+		switch v[i] {
+		case '#', '\\':
+			return true
+		case ':', '-':
+			if i+1 < len(v) && v[i+1] == ' ' {
+				return true
+			}
+		}
+	}
+	return false
+}
+
+// lfBlock: what comes back for an unquoted value with LF line breaks under a key of nesting depth
+// `depth`, from the two mechanisms the finding describes: goccy writes a literal block WITHOUT
+// indentation indicator (every line behind P = 2*(depth+1) spaces, then two TrimSuffix calls that
+// also eat P trailing spaces of the last line); yaml.v3 DETECTS the indentation (widest of the leading
+// blank lines and the first non-blank line) and ends the block at a shallower line. ok=false: the
+// block ends early, the file is no YAML.
+func lfBlock(depth int, s string) (string, bool) {
+	P, parent := 2*(depth+1), 2*depth
+	pre := strings.Repeat(" ", P)
+	lines := strings.Split(s, "\n")
+	for i := range lines {
+		lines[i] = pre + lines[i]
+	}
+	block := strings.TrimSuffix(strings.TrimSuffix(strings.Join(lines, "\n"), "\n"+pre), pre)
+	lines = strings.Split(block, "\n")
+	blank := func(l string) bool { return strings.Trim(l, " ") == "" }
+	lead := 0
+	widest := 0
+	for lead < len(lines) && blank(lines[lead]) {
+		if len(lines[lead]) > widest {
+			widest = len(lines[lead])
+		}
+		lead++
+	}
+	first := parent
+	if lead < len(lines) {
+		first = len(lines[lead]) - len(strings.TrimLeft(lines[lead], " "))
+	}
+	indent := widest
+	if first > indent {
+		indent = first
+	}
+	if indent < parent+1 {
+		indent = parent + 1
+	}
+	var acc strings.Builder
+	had, pending := false, lead
+	for _, l := range lines[lead:] {
+		switch {
+		case blank(l) && len(l) <= indent:
+			pending++
+		case len(l)-len(strings.TrimLeft(l, " ")) >= indent:
+			if had {
+				acc.WriteByte('\n')
+			}
+			acc.WriteString(strings.Repeat("\n", pending))
+			acc.WriteString(l[indent:])
+			had, pending = true, 0
+		default:
+			return "", false
+		}
+	}
+	switch {
+	case strings.HasSuffix(s, "\n\n"):
+		if had {
+			acc.WriteByte('\n')
+		}
+		acc.WriteString(strings.Repeat("\n", pending))
+	case strings.HasSuffix(s, "\n"):
+		if had {
+			acc.WriteByte('\n')
+		}
+	}
+	return acc.String(), true
+}
+
 // yamlPredicted: what the recorded finding of w's class says comes back for w - computed here from
 // the finding's description (strconv), independently of the Lean model: kind "retyped" (+ the
 // value), "fileBroken" (the reader refuses the file, every option gets its default), "loadError"
 // (config.Load fails), or "" (w is in no recorded class).
-func yamlPredicted(w string) (cause, kind, value string) {
-	cause = yamlCause(w)
+func yamlPredicted(w string, depth int) (cause, kind, value string) {
+	cause = yamlCause(w, depth)
 	p := w
 	if !strings.HasPrefix(w, "_") {
 		p = strings.ReplaceAll(w, "_", "")
@@ -630,8 +726,11 @@ func yamlPredicted(w string) (cause, kind, value string) {
 		return cause, "retyped", v
 	case "lone-newline-lost":
 		return cause, "retyped", ""
-	case "file-unparsable-silently-ignored", "control-character-file-unparsable-silently-ignored":
+	case "file-unparsable-silently-ignored", "control-character-file-unparsable-silently-ignored", "multiline-block-file-unparsable-silently-ignored":
 		return cause, "fileBroken", ""
+	case "multiline-block-reread-differently":
+		v, _ := lfBlock(depth, w)
+		return cause, "retyped", v
 	case "date-like-string-refused":
 		return cause, "loadError", ""
 	case "numeric-looking-string-retyped":
@@ -771,7 +870,7 @@ func (r *runner) doSave(o hx.Op) {
 		sig := "C18/saveload/load-error"
 		predicted := map[string]bool{}
 		for i, f := range r.fs {
-			if _, kind, _ := yamlPredicted(want[i]); isOption(f) && f.Kind == "string" && kind == "loadError" {
+			if _, kind, _ := yamlPredicted(want[i], strings.Count(f.YAML, ".")); isOption(f) && f.Kind == "string" && kind == "loadError" {
 				predicted[f.YAML] = true
 			}
 		}
@@ -803,7 +902,7 @@ func (r *runner) doSave(o hx.Op) {
 	// damaged class that comes back as something else is `saveload/other/<option>`.
 	breaker := "" // some string option's class predicts that the reader refuses the whole file
 	for i, f := range r.fs {
-		if c, kind, _ := yamlPredicted(want[i]); isOption(f) && f.Kind == "string" && kind == "fileBroken" && breaker == "" {
+		if c, kind, _ := yamlPredicted(want[i], strings.Count(f.YAML, ".")); isOption(f) && f.Kind == "string" && kind == "fileBroken" && breaker == "" {
 			breaker = c
 		}
 	}
@@ -812,9 +911,12 @@ func (r *runner) doSave(o hx.Op) {
 			w, g := want[i], got[i]
 			cause, kind, pv := "", "", ""
 			if f.Kind == "string" {
-				cause, kind, pv = yamlPredicted(w)
+				cause, kind, pv = yamlPredicted(w, strings.Count(f.YAML, "."))
 			}
 			switch {
+			case parseErr != nil && breaker == "" && !(f.Kind == "string" && strings.ContainsAny(w, "\n\r")):
+				// not a value that could have damaged the file itself: collateral of another option's value
+				r.c.Report("C18/saveload/file-unparsable/other-options-reverted", fmt.Sprintf("SaveAsYaml left a file viper cannot parse (%v); Load ignores the error, so EVERY option of the file silently reverts to its default: saved %s=%q, loaded %q", parseErr, f.Go, w, g))
 			case parseErr != nil && breaker == "":
 				r.c.Report("C18/saveload/file-unparsable", fmt.Sprintf("SaveAsYaml left a file viper cannot parse (%v) although no option holds a value known to be written wrongly; saved %s=%q, loaded %q", parseErr, f.Go, w, g))
 			case parseErr != nil && (g == r.prist[i] || g == before[i]):
